@@ -6,8 +6,7 @@ Structure (mirrors the Python top to bottom):
 
 * `infSurface`  – the bunds / no-bunds split of the day's intake into the amount offered to the
                   soil (`ToStore`), the initial runoff (`RunoffIni`) and the new ponding depth.
-                  With bunds present and `zBund ≤ 0.001` neither `ToStore` nor `RunoffIni` is ever
-                  assigned and Python raises `UnboundLocalError` at `if ToStore > 0` → `E:unbound`.
+                  Bunds with `zBund ≤ 0.001` are treated as no bunds (repo fix 6d1f3fa).
                   `prof.Ksat[0]` on an empty profile → `E:index`.
 * `infCell`     – body of the main `while` loop for one compartment up to (and including)
                   `ToStore = ToStore - excess`.
@@ -38,7 +37,7 @@ structure Surf (α : Type) where
   runoffIni : α
   pond      : α
   lost      : α     -- ghost: intake dropped (case (a) above)
-  branch    : Nat   -- ghost: which branch was taken (1..7)
+  branch    : Nat   -- ghost: which branch was taken (1..9)
 
 /-- bunds: overtopping check after the Ksat split (`pond1` = water left ponding). -/
 def overtop (toStore pond1 zBund : α) (br : Nat) : Surf α :=
@@ -47,32 +46,42 @@ def overtop (toStore pond1 zBund : α) (br : Nat) : Surf α :=
   else
     { toStore := toStore, runoffIni := 0, pond := pond1, lost := 0, branch := br + 2 }
 
+/-- the no-bunds branch: `(ToStore, RunoffIni)` from the Ksat split, ponded water released as
+runoff; ghost branch id `br` (Ksat-limited) or `br + 1`. -/
+def noBunds (ksat0? : Option α) (pond infl : α) (br : Nat) : Except String (Surf α) :=
+  match ksat0? with
+  | none => .error "E:index"
+  | some k =>
+    if k < infl then
+      .ok { toStore := k, runoffIni := infl - k + pond, pond := 0, lost := 0, branch := br }
+    else
+      .ok { toStore := infl, runoffIni := 0 + pond, pond := 0, lost := 0, branch := br + 1 }
+
 /-- Surface part: `ksat0? = prof.Ksat[0]` if the profile is non-empty, `pond` the incoming
-surface storage, `infl` the (efficiency-adjusted, asserted non-negative) intake. -/
+surface storage, `infl` the (efficiency-adjusted, asserted non-negative) intake.
+
+Python: `if Bunds: if zBund > 0.001: <bund block>` followed by
+`if (not Bunds) or (zBund <= 0.001): <no-bunds block>`.  The two guards are mutually exclusive
+(also at `Float`), so the two consecutive `if`s are modelled as a chain.  Neither guard holds only
+for `Bunds` with `zBund = NaN`; then `ToStore` is unbound at `if ToStore > 0` (`E:unbound`) — in
+an ordered field that case does not exist (`infSurface_ne_unbound`). -/
 def infSurface (ksat0? : Option α) (pond infl : α) (bunds : Bool) (zBund : α) :
     Except String (Surf α) :=
-  if bunds then
-    if 0.001 < zBund then
-      let inflTot := infl + pond
-      if 0 < inflTot then
-        match ksat0? with
-        | none => .error "E:index"
-        | some k =>
-          if k < inflTot then .ok (overtop k (inflTot - k) zBund 1)
-          else .ok (overtop inflTot 0 zBund 2)
-      else
-        .ok { toStore := 0, runoffIni := 0, pond := pond, lost := infl, branch := 5 }
+  if bunds = true ∧ 0.001 < zBund then
+    let inflTot := infl + pond
+    if 0 < inflTot then
+      match ksat0? with
+      | none => .error "E:index"
+      | some k =>
+        if k < inflTot then .ok (overtop k (inflTot - k) zBund 1)
+        else .ok (overtop inflTot 0 zBund 2)
     else
-      -- `ToStore`, `RunoffIni` never assigned: UnboundLocalError at `if ToStore > 0`
-      .error "E:unbound"
+      .ok { toStore := 0, runoffIni := 0, pond := pond, lost := infl, branch := 5 }
+  else if bunds = false ∨ zBund ≤ 0.001 then
+    -- no bunds, or bunds lower than 1 mm (ignored)
+    noBunds ksat0? pond infl (if bunds then 8 else 6)
   else
-    match ksat0? with
-    | none => .error "E:index"
-    | some k =>
-      if k < infl then
-        .ok { toStore := k, runoffIni := infl - k + pond, pond := 0, lost := 0, branch := 6 }
-      else
-        .ok { toStore := infl, runoffIni := 0 + pond, pond := 0, lost := 0, branch := 7 }
+    .error "E:unbound"
 
 /-- `(theta0, dthdt0)` after the "check drainage ability" block, for `ts = ToStore`. -/
 def infTheta (F : Fn α) (x : Cell α) (ts : α) : α × α :=
